@@ -1571,6 +1571,10 @@ var shapeTargets = []shapeTarget{
 	{"internal/scheduler", "effectiveClass", "HybridScheduler", "body-stmts", "sched_effective_class"},
 	{"internal/scheduler", "pendingByClass", "HybridScheduler", "if-all", "sched_pending_small_ifs"},
 	{"internal/scheduler", "pendingWeighted", "HybridScheduler", "if-all", "sched_pending_weighted_ifs"},
+	// which stored metadata a beginning file resumes from (Model/Entry)
+	{"internal/transfer", "RecvManifestMultiStream", "", "if-cond-has:statErr", "entry_stat_test"},
+	{"internal/transfer", "RecvManifestMultiStream", "", "args:os.Remove", "entry_removes"},
+	{"internal/transfer", "LoadOrCreateSidecarWithFallback", "", "if-all", "entry_load_ifs"},
 	// finalisation gate of the receiver (Model/Once)
 	{"internal/transfer", "RecvManifestMultiStream", "", "closure-head:finalizeFile:4", "finalize_gate"},
 	{"internal/transfer", "RecvManifestMultiStream", "", "seq:state.done = true|completedCount++|s.done = true", "finalize_done_sets"},
